@@ -71,6 +71,42 @@ Theorem C08_model_all_pairs_per_source : forall (T A : Type) (teqb : T -> T -> b
     mm = collect_map teqb l.
 Proof. exact @all_pairs_per_source. Qed.
 
+(* ... and in the failure case (since the repair of F22 a per-source `Err` is propagated with `?`, not
+   unwrapped): once the up-front name checks have passed, multi_source returns Ok iff every per-source
+   call does; otherwise its outcome is the failure of the FIRST listed source whose call is not Ok — the
+   same Error kind, the same panic site.  all_pairs' region likewise, per node index.  Every graph state. *)
+Theorem C08_model_multi_source_ok_iff : forall (T A : Type) (teqb : T -> T -> bool) threads
+    (g : gstate T A) weighted sources target cutoff fo wp,
+  has_nodes teqb g sources = Ok true ->
+  match target with Some t => has_node teqb g t | None => Ok true end = Ok true ->
+  ((exists mm, multi_source teqb threads g weighted sources target cutoff fo wp = Ok mm) <->
+   (forall s, In s sources -> is_ok (single_source teqb g weighted s target cutoff fo wp) = true)).
+Proof. exact @multi_source_ok_iff. Qed.
+
+Theorem C08_model_multi_source_first_failure : forall (T A : Type) (teqb : T -> T -> bool) threads
+    (g : gstate T A) weighted sources target cutoff fo wp pre s post,
+  has_nodes teqb g sources = Ok true ->
+  match target with Some t => has_node teqb g t | None => Ok true end = Ok true ->
+  sources = (pre ++ s :: post)%list ->
+  (forall x, In x pre -> is_ok (single_source teqb g weighted x target cutoff fo wp) = true) ->
+  is_ok (single_source teqb g weighted s target cutoff fo wp) = false ->
+  same_failure (multi_source teqb threads g weighted sources target cutoff fo wp)
+               (single_source teqb g weighted s target cutoff fo wp).
+Proof. exact @multi_source_first_failure. Qed.
+
+Theorem C08_model_all_pairs_first_failure : forall (T A : Type) (teqb : T -> T -> bool)
+    (g : gstate T A) weighted (target : option T) ti cutoff fo wp i,
+  match target with
+  | Some t => exists j, get_node_index teqb g t = Ok j /\ ti = Some j
+  | None => ti = None
+  end ->
+  (i < number_of_nodes g)%nat ->
+  (forall j, (j < i)%nat -> is_ok (run_from_index g weighted j target ti cutoff fo wp) = true) ->
+  is_ok (run_from_index g weighted i target ti cutoff fo wp) = false ->
+  same_failure (all_pairs_iter teqb g weighted target cutoff fo wp)
+               (run_from_index g weighted i target ti cutoff fo wp).
+Proof. exact @all_pairs_iter_first_failure. Qed.
+
 Theorem C08_model_single_source_unfold : forall (T A : Type) (teqb : T -> T -> bool)
     (g : gstate T A) weighted source target cutoff fo wp m,
   single_source teqb g weighted source target cutoff fo wp = Ok m ->
@@ -186,6 +222,38 @@ Section Reachable.
                   In s (names g) /\ single_source teqb g weighted s target cutoff fo wp = Ok m.
   Proof. exact (wf_all_pairs teqb tltb teqb_spec tltb_total). Qed.
 
+  (* The same agreement for ANY stored weights (negative ones included), any cutoff: multi_source /
+     all_pairs return EITHER the map of the per-source answers — and then every per-source call
+     returned Ok — OR Err ContradictoryPaths, and then some listed source's (some node's) single_source
+     returns exactly that error.  No third outcome: the entry points agree on the Err case too. *)
+  Theorem C08_reachable_multi_source_any_weights : forall (threads : nat) (g : gstate) (weighted : bool)
+      (sources : list T) (target : option T) (cutoff : option Q) (fo wp : bool),
+    WF g -> small_adj g ->
+    (forall s, In s sources -> In s (names g)) ->
+    (forall t, target = Some t -> In t (names g)) ->
+    (exists mm,
+       multi_source teqb threads g weighted sources target cutoff fo wp = Ok mm /\
+       (forall s, In s sources -> exists m, single_source teqb g weighted s target cutoff fo wp = Ok m) /\
+       forall s m, lookup teqb s mm = Some m <->
+                   In s sources /\ single_source teqb g weighted s target cutoff fo wp = Ok m) \/
+    (multi_source teqb threads g weighted sources target cutoff fo wp = Err ContradictoryPaths /\
+     exists s, In s sources /\ single_source teqb g weighted s target cutoff fo wp = Err ContradictoryPaths).
+  Proof. exact (wf_multi_source_any teqb tltb teqb_spec). Qed.
+
+  Theorem C08_reachable_all_pairs_any_weights : forall (threads : nat) (g : gstate) (weighted : bool)
+      (target : option T) (cutoff : option Q) (fo wp : bool),
+    WF g -> small_adj g ->
+    (weighted = true -> edges_have_weight g = true) ->
+    (forall t, target = Some t -> In t (names g)) ->
+    (exists mm,
+       all_pairs teqb threads g weighted target cutoff fo wp = Ok mm /\
+       (forall s, In s (names g) -> exists m, single_source teqb g weighted s target cutoff fo wp = Ok m) /\
+       forall s m, lookup teqb s mm = Some m <->
+                   In s (names g) /\ single_source teqb g weighted s target cutoff fo wp = Ok m) \/
+    (all_pairs teqb threads g weighted target cutoff fo wp = Err ContradictoryPaths /\
+     exists s, In s (names g) /\ single_source teqb g weighted s target cutoff fo wp = Err ContradictoryPaths).
+  Proof. exact (wf_all_pairs_any teqb tltb teqb_spec). Qed.
+
   Theorem C08_all_pairs_unweighted_store : forall (threads : nat) (g : gstate)
       (target : option T) (cutoff : option Q) (fo wp : bool),
     edges_have_weight g = false ->
@@ -239,6 +307,23 @@ Section Reachable.
              (WF_reachable teqb tltb teqb_spec tltb_asym tltb_total s g R)).
   Qed.
 End Reachable.
+
+(* non-vacuity of the Err branch of the two `_any_weights` theorems: F22's graph (reachable, WF, small,
+   one negative weight) — single_source from 1, multi_source and all_pairs all return
+   Err ContradictoryPaths; hop-count mode takes the Ok branch *)
+Example C08_any_weights_err_branch_nonvacuous :
+  match ex_neg with
+  | Ok g =>
+    WF Z.eqb Z.ltb g /\ small_adj g /\ ~ weights_nonneg g /\
+    single_source Z.eqb g true 1%Z None None false true = Err ContradictoryPaths /\
+    multi_source Z.eqb 1 g true [1%Z] None None false true = Err ContradictoryPaths /\
+    multi_source Z.eqb 1 g true [2%Z; 1%Z; 3%Z] None None false true = Err ContradictoryPaths /\
+    all_pairs Z.eqb 1 g true None None false true = Err ContradictoryPaths /\
+    get_all_shortest_paths_involving Z.eqb 1 g 3%Z true = Ok [] /\
+    (exists mm, all_pairs Z.eqb 1 g false None None false true = Ok mm /\ List.length mm = 3%nat)
+  | _ => False
+  end.
+Proof. exact negative_weights_err. Qed.
 
 (* non-vacuity: see C04_reachable_hypotheses_nonvacuous (the same example graph: reachable,
    WF, small, non-negative weights, all three entry points return Ok on it) *)
